@@ -16,25 +16,16 @@ import (
 // C08 (retention clause): truncation removes exactly the prefix of events
 // that is beyond the protections. Event ages are multiples of 10 s and the
 // age limits end in 5 s, so the one-second granularity of the implementation
-// cannot flip a decision while the check runs.
+// cannot flip a decision while the check runs. The exception are events placed
+// exactly minAge seconds back (the second of the cutoff, where an event may
+// still be younger than the minimum age and must be kept): those cases are
+// judged only when the wall clock stayed within one second while they ran.
 
 func genC08Retention(t *rapid.T) bson.D {
 	n := rapid.IntRange(0, 14).Draw(t, "n")
 	ages := make([]int, n)
 	for i := range ages {
 		ages[i] = 10 * rapid.IntRange(0, 12).Draw(t, "age")
-	}
-	// oldest first
-	for i := 0; i < n; i++ {
-		for j := i + 1; j < n; j++ {
-			if ages[j] > ages[i] {
-				ages[i], ages[j] = ages[j], ages[i]
-			}
-		}
-	}
-	aa := bson.A{}
-	for _, a := range ages {
-		aa = append(aa, int32(a))
 	}
 	via := rapid.Bool().Draw(t, "viaEngine")
 	minSize := rapid.IntRange(0, 8).Draw(t, "minSize")
@@ -52,6 +43,25 @@ func genC08Retention(t *rapid.T) bson.D {
 		if minAge == 0 {
 			minAge = 5
 		}
+	}
+	// some events are exactly minAge seconds old: stamped in the second of the
+	// cutoff, they may be younger than the minimum age and are protected
+	if minAge != 0 && n > 0 {
+		for j, k := 0, rapid.IntRange(0, 999).Draw(t, "borderline")%3; j < k; j++ {
+			ages[rapid.IntRange(0, n-1).Draw(t, "borderlineAt")] = minAge
+		}
+	}
+	// oldest first
+	for i := 0; i < n; i++ {
+		for j := i + 1; j < n; j++ {
+			if ages[j] > ages[i] {
+				ages[i], ages[j] = ages[j], ages[i]
+			}
+		}
+	}
+	aa := bson.A{}
+	for _, a := range ages {
+		aa = append(aa, int32(a))
 	}
 	return bson.D{{Key: "ages", Value: aa}, {Key: "minSize", Value: int32(minSize)}, {Key: "maxSize", Value: int32(maxSize)}, {Key: "minAge", Value: int32(minAge)}, {Key: "maxAge", Value: int32(maxAge)}, {Key: "viaEngine", Value: via}}
 }
@@ -116,6 +126,21 @@ func runC08Retention(c bson.D, x *Ctx) error {
 		if len(cat.Namespaces[lungo.Oplog].Documents.List) != len(asA(getD(c, "ages"))) {
 			return fmt.Errorf("Clean modified the catalog it was started from")
 		}
+	}
+	borderline := false
+	for _, a := range ages {
+		if minAge != 0 && a == minAge {
+			borderline = true
+		}
+	}
+	if borderline {
+		if bsonkit.Now().T != now {
+			// the wall clock moved to the next second while the case ran: the
+			// crafted ages are one second off
+			x.Class("second-rolled-over")
+			return nil
+		}
+		x.Class("event-in-the-cutoff-second")
 	}
 	L := len(ages)
 	// expected: the longest prefix of events that are outside both protections
